@@ -1,5 +1,5 @@
 """C04  Lexing and parsing are total."""
-import random
+import itertools, random
 from vlib import core, diff
 from checks import parser_common as pc
 
@@ -41,6 +41,11 @@ def gen_cases(ctx):
     add("lex_strings", pc.lex_strings(4 if q else 5))
     add("tok_top", pc.tok_sequences(pc.TOK_TOP, 4 if q else 5))
     add("tok_body", pc.tok_sequences(pc.TOK_BODY, 3 if q else 4, wrap="proc P\n%s\nendproc"))
+    # the same over the block keywords (every opener, separator and terminator of the statement grammar, plus an operand)
+    blocks = ["x", "if", "elseif", "else", "endif", "while", "endwhile", "for", "=", "to", "endfor", "switch", "when", "endwhen",
+              "endswitch", "repeat", "until", "loop", "endloop", "foreach", "in", "return", "1"]
+    add("tok_body_blocks", [pc.enc("proc P\n%s\nendproc" % " ".join(t)) for l in range(1, (3 if q else 4) + 1)
+                            for t in itertools.product(blocks, repeat=l)])
     add("soups", [pc.enc(pc.soup(rng, rng.randint(1, 60))) for _ in range(3000 if q else 60000)])
     fx = pc.fixtures()
     progs = [t for (t, _, _) in pc.generated_programs(rng, 600 if q else 8000)]
